@@ -8,6 +8,8 @@ ENGINES = [
     {"name": "F", "path": "wrapsa/prog.py", "serves_properties": ["C01", "C02", "C08", "C13", "C14",
                                                                    "C15", "C16", "C17"],
      "kind_free_text": "program index, call binding, guards, def-use, freshness, effects"},
+    {"name": "X", "path": "wrapsa/clangx.py", "serves_properties": ["C18", "C11"],
+     "kind_free_text": "clang -fsyntax-only JSON AST of matlab.h against stub headers"},
 ]
 CHECKS = {
     "C01": {"engine": "G+F", "design_ref": "DESIGN.md section 3 C01",
@@ -44,6 +46,16 @@ CHECKS = {
                     "reads confined to inputs/bundled template, one finished write per output. Does not decide "
                     "OS-level atomicity under concurrent writers of the same target.",
             "note": TB + "; insertion-ordered dict/list iteration; MatlabWrapper single-use (exempt from R3)"},
+    "C18": {"engine": "X", "design_ref": "DESIGN.md section 3 C18",
+            "technique": "static analysis: clang -fsyntax-only AST (JSON) of matlab.h against declaration-only stubs; writer/reader table agreement, guard-before-use ordering, typed/bounded raw stores, loop-nest shape comparison",
+            "text": "Decides the structural conditions of loss-free conversion in matlab.h: wrap/unwrap tables "
+                    "agree; scalar readers check shape first and read through their own type; raw stores are "
+                    "typed and fit the created array (LP64, and ILP32 in the thorough tier); vector/matrix "
+                    "readers guard before taking the data pointer; writer and reader traverse matrices in the "
+                    "same column-major nest; errors are terminal; the handle protocol (shared_ptr<Class>* in a "
+                    "uint64 array) is read as it is written. Numeric round-trip equality and lifetime over "
+                    "call histories are not decided.",
+            "note": "trusted: clang 14 parser/Sema; /verif/stubs declare the documented MEX C API and minimal gtsam types"},
     "C19": {"engine": "G", "design_ref": "DESIGN.md section 3 C19",
             "technique": "static analysis: memoisation-enabled lint over all modules + left-recursion/nullable-repetition analysis of the grammar IR",
             "text": "Decides the structural preconditions of polynomial parsing (memoisation on, unconditional, "
@@ -54,4 +66,4 @@ CHECKS = {
 PENDING = "checker not implemented yet in this revision (see DESIGN.md section 3 for the planned static rules)"
 NOT_APPLICABLE = {p: PENDING for p in
                   ["C02", "C03", "C04", "C05", "C06", "C08", "C09", "C10", "C11",
-                   "C13", "C15", "C16", "C17", "C18"]}
+                   "C13", "C15", "C16", "C17"]}
